@@ -543,6 +543,39 @@ def c11_after_fault(op, S0, S1, SF, simF, stats):
     return v
 
 
+def c09_after_swallowed_fault(op, S0, SF, simF, stats):
+    """A sync that returns normally tells its caller that every target now agrees with the truth.  If an injected
+    fault was swallowed on the way, that claim still has to be true (A1 / A2 on the state it left)."""
+    v = []
+    truth = _truth_info(op, S0)
+    if truth is None or truth.get("node") is None:
+        return v
+    stats["swallowed_faults_checked"] = stats.get("swallowed_faults_checked", 0) + 1
+    for kind, name, f in iter_targets(op):
+        if is_truth_target(op, kind, f):
+            continue
+        pre = pre_state(kind, name, S0.get(f), truth)
+        if pre == "stale" and kind != "class":
+            continue  # F01: existing function-kind targets are never rewritten, fault or no fault
+        if kind == "function" and "." in name and pre in ("missing", "empty", "absent"):
+            continue  # F02
+        common = dict(target_kind=target_kind(kind, name), pre_state=pre, write=write_path(pre), fault=simF.fired["kind"], seam=simF.fired["event_kind"], swallowed=True)
+        data = SF.get(f)
+        tree = _tree(data)
+        if data is None or tree is None:
+            v.append(viol("C09", "A1-missing" if data is None else "A1-unparseable", op, "sync returned normally although a %s at %s had fired, yet target %s %s" % (
+                simF.fired["kind"], simF.fired["event_kind"], f, "does not exist" if data is None else "does not parse"), **common))
+            continue
+        res = resolver.resolve(tree, name.split("."))
+        node = res["node"] if res else None
+        if node is None or not isinstance(node, NODE_TYPE[kind]):
+            v.append(viol("C09", "A1-not-found", op, "sync returned normally although a %s at %s had fired, yet %s is not in %s" % (simF.fired["kind"], simF.fired["event_kind"], name, f), **common))
+        elif resolver.interface_names(node, kind) != truth["names"]:
+            v.append(viol("C09", "A2-names", op, "sync returned normally although a %s at %s had fired, yet %s in %s has parameters %r, truth has %r" % (
+                simF.fired["kind"], simF.fired["event_kind"], name, f, resolver.interface_names(node, kind), truth["names"]), **common))
+    return v
+
+
 def before_bytes_differ(S0, S1, f):
     return S0.get(f) != S1.get(f)
 
@@ -1066,6 +1099,8 @@ def execute(scenario, want_trace=False):
                 new += oracles_fault(op, S0, S1, SF, outF, simF, stats, versions=getattr(sim1, "versions", None))
                 if kind == "sync" and simF.fired is not None:
                     new += c11_after_fault(op, S0, S1, SF, simF, stats)
+                    if outF["status"] == "ok":
+                        new += c09_after_swallowed_fault(op, S0, SF, simF, stats)
                 rec["fault"] = {"plan": fault, "fired": simF.fired, "status": outF["status"], "exc": outF.get("exc"),
                                 "post": {(f if f in S0 or f in S1 else "<stray>"): sha(d) for f, d in sorted(SF.items())}}
                 hist["prev"] = None
